@@ -7,6 +7,14 @@ ids = [p['id'] for p in props]
 
 CHECKS = {
  # id: (level, technique, level text, level note, design_ref)
+ 'C01': ('exploration', 'differential round-trip monitor: gdstk write_gds/read_gds vs canonical model computed from the spec with exact rational rounding, under ASan+UBSan',
+         'the library re-loaded from the file is compared item by item (polygons, paths, labels, references, arrays, properties, units) with a '
+         'model derived from the generating spec only; regions for elements GDSII cannot hold; 2nd and 3rd cycles must be fixpoints',
+         'spec-derived oracle in py/model.py; outlines of non-simple paths are observed from gdstk (C07/C08 decide them); sampled libraries', '7/C01'),
+ 'C03': ('exploration', 'differential monitor against an independent GDSII codec (spec-derived encoder with random legal choices + strict decoder)',
+         'reader: every stream the independent encoder emits must load to the layout it encodes; writer: every file gdstk writes must pass '
+         'the strict decoder and decode to the model of the spec',
+         'trusts py/gds_codec.py (DESIGN.md appendix A); sampled layouts and serialisation choices', '7/C03'),
  'C14': ('exploration', 'online monitor with exact __int128 winding-number / shoelace oracle; exhaustive on small grids',
          'every answer of contain/contain_all/contain_any/inside/all_inside/any_inside/area/signed_area/perimeter is compared with '
          'exact integer predicates; complete for all vertex lists of length 0..4 on a 4x4 grid x 81 query points (thorough: +5-vertex '
